@@ -64,3 +64,9 @@ add("C01", "Hypothesis-driven grammar-based program generation in 7 languages wi
     "scan_path on disk) and the complete list of (name, start, end, length) is compared with spans recorded while rendering. "
     "Every feature label must occur in a run (non-vacuity). Sampling of an unbounded grammar.",
     "trusts the renderer's span bookkeeping (vf/gen/programs.py); speaks only about the canonical grammar of DESIGN 3.1")
+
+add("C17", "Hypothesis-driven program generation with marker/decoy decoration, metamorphic comparison of two renderings of one AST",
+    "3360 (thorough 42000) canonical programs get a random subset of eligible functions marked (all comment styles, cases, spacings, "
+    "trailing / leading position) plus decoys and stray marker comments elsewhere; the analysis of the marked rendering must equal "
+    "the analysis of the equally long neutral rendering minus exactly the marked functions.",
+    "relation only (never compares with an absolute expectation); eligible = not nested in and not enclosing a function")
